@@ -8,7 +8,8 @@ EXTENDS Integers, Sequences, FiniteSets, TLC
 (* An error term is a record [op, ch]: op names the leaf or wrapper, ch is the sequence of wrapped terms.  *)
 (*   nil                      no error                                                                     *)
 (*   E1 E2 E3                 sentinel errors (errors.New)                                                 *)
-(*   TV, TP                   typed errors: value-receiver type (TV{}), pointer-receiver type (&TP{})      *)
+(*   TV, TP, TX               typed errors: value-receiver type (TV{}), pointer-receiver type (&TP{}),     *)
+(*                            and TX{}: another type with TV's underlying representation                   *)
 (*   W(x)                     fmt.Errorf("%w", x)                 Unwrap() error                           *)
 (*   WT(x)                    a custom wrapping type              Unwrap() error, itself a matchable type  *)
 (*   J(x, y)                  errors.Join(x, y)                   Unwrap() []error                         *)
